@@ -12,6 +12,7 @@ da == N("a", FALSE, FALSE, FALSE, "", 2)
 db == N("b", FALSE, FALSE, FALSE, "", 3)
 dout == N("out", FALSE, FALSE, FALSE, "", 7)
 dab == N("ab", FALSE, FALSE, FALSE, "", 2)                 \* sibling of "a" whose name begins like it
+L1 == N("l1.cmake", TRUE, TRUE, TRUE, "l1", 6)             \* written with a Latin-1 byte: not UTF-8
 XY == N("x-y.cmake", TRUE, TRUE, TRUE, "x-y", 7)             \* sorts before x.cmake ('-' < '.')
 doutold == N("out-old", FALSE, FALSE, FALSE, "", 7)      \* a sibling whose name merely begins like the output directory's
 
@@ -35,6 +36,8 @@ MCTrees == {Mk(f, NoCh) : f \in RootFiles}
 SmallTrees == {Mk(f, NoCh) : f \in RootFiles}
            \cup {Mk({X}, (doutold :> Leaf({Z})) @@ (da :> Mk({X}, (doutold :> Leaf({Z})))))}
            \cup {Mk({X, T}, (da :> Leaf({Y})) @@ (db :> Leaf({X})))}
+           \cup {Mk({X, L1}, (da :> Leaf({X})))}
+           \cup {Mk({X}, (dout :> Leaf({T})) @@ (db :> Leaf({X})) @@ (da :> Leaf({Z})))}     \* the output directory exists already
            \cup {Mk({X, XY}, (da :> Leaf({X})) @@ (dab :> Mk({Z}, (db :> Leaf({X})))))}
            \cup {Mk({X, Z, T}, (da :> m) @@ (db :> l)) : m \in {Leaf({X}), Leaf({T}), Mk({X}, (db :> Leaf({X}))), Mk({}, (db :> Leaf({X})))},
                                                            l \in {Leaf({X}), Leaf({Z}), Leaf({Z, Y})}}
@@ -46,7 +49,7 @@ MCPatternSets == { {}, {Pin("**/b/*.cmake", "b", {"x.cmake", "z.cmake", "x-y.cma
                    {P("x.cmake", {"x.cmake"}, FALSE), P("z.cmake", {"z.cmake"}, FALSE)}, {P("*.CMAKE", {"Y.CMAKE"}, FALSE)},
                    {P("**/b", {"b"}, FALSE)}, {Pabs("@/a/x.cmake", <<da, X>>)}, {P("*.cmake", {"x.cmake", "z.cmake", "x-y.cmake", "d.e-f.cmake"}, FALSE), P("n.txt", {"n.txt"}, FALSE)},
                    {P("b/", {"b"}, TRUE), P("x.cmake", {"x.cmake"}, FALSE)} }
-SmallPatternSets == { {}, {Pin("**/b/*.cmake", "b", {"x.cmake", "z.cmake", "x-y.cmake", "d.e-f.cmake"})}, {P("x.cmake/", {"x.cmake"}, TRUE), P("b/", {"b"}, TRUE)}, {P("z.cmake", {"z.cmake"}, FALSE)}, {P("a/", {"a"}, TRUE), P("b", {"b"}, FALSE)}, {P("x.cmake", {"x.cmake"}, FALSE), P("z.cmake", {"z.cmake"}, FALSE)},
+SmallPatternSets == { {}, {P("*.CMAKE", {"Y.CMAKE"}, FALSE)}, {Pin("**/b/*.cmake", "b", {"x.cmake", "z.cmake", "x-y.cmake", "d.e-f.cmake"})}, {P("x.cmake/", {"x.cmake"}, TRUE), P("b/", {"b"}, TRUE)}, {P("z.cmake", {"z.cmake"}, FALSE)}, {P("a/", {"a"}, TRUE), P("b", {"b"}, FALSE)}, {P("x.cmake", {"x.cmake"}, FALSE), P("z.cmake", {"z.cmake"}, FALSE)},
                       {P("*.cmake", {"x.cmake", "z.cmake", "x-y.cmake", "d.e-f.cmake"}, FALSE)} }
 MCOutSub == [top |-> <<dout>>, sub |-> <<da, dout>>]
 NoDev == {}
